@@ -90,10 +90,14 @@ class multi_output {
  private:
   class buffered_ofstream {
    public:
+    // The file is created (or truncated) here and reopened for every flush: a
+    // stream kept open per subpath runs into the open-file limit, after which
+    // streams fail to open and their lines are dropped silently
     buffered_ofstream(const fs::path &p, const std::ios_base::openmode mode,
                       const size_t buf_len)
-        : ofstream_ptr(std::make_unique<std::ofstream>(p.c_str(), mode)),
-          buffer_length(buf_len) {}
+        : path(p), buffer_length(buf_len) {
+      std::ofstream create(path.c_str(), mode);
+    }
 
     void buffer_output(const std::string &s) {
       buffer.append(s);
@@ -107,15 +111,16 @@ class multi_output {
     void flush_buffer() {
       if (buffer.size() == 0) return;
 
-      ofstream_ptr->write(buffer.data(), buffer.size());
+      std::ofstream ofs(path.c_str(), std::ios::binary | std::ios_base::app);
+      ofs.write(buffer.data(), buffer.size());
       buffer.clear();
       buffer.shrink_to_fit();
     }
 
    private:
-    std::string                    buffer;
-    std::unique_ptr<std::ofstream> ofstream_ptr;
-    size_t                         buffer_length;
+    std::string buffer;
+    fs::path    path;
+    size_t      buffer_length;
   };
 
   void flush_all_buffers() {
